@@ -12,6 +12,9 @@ import sys
 REPO = os.environ.get("NSS_REPO", "/repo")
 SRC = os.path.join(REPO, "src")
 VERIF = os.path.dirname(os.path.dirname(os.path.abspath(__file__)))
+# evidence is only ever written from a run against /repo itself; a run against a scratch copy (NSS_REPO, used to try seeded changes)
+# writes under .scratch/ so that it can never be mistaken for, or overwrite, the evidence of the real tree
+EVDIR = os.path.join(VERIF, "evidence") if os.path.realpath(REPO) == "/repo" else os.path.join(VERIF, ".scratch", "evidence-" + os.path.basename(os.path.realpath(REPO)))
 
 
 def use_repo():
